@@ -596,12 +596,25 @@ func (ev *Env) call(x *ast.CallExpr) Val {
 		n := *ev
 		n.cur = ev.pre
 		return n.eval(x.Args[0])
+	case "atHeader":
+		// the value of an expression at the head of the current loop iteration
+		if ev.frame == nil || ev.loopH == nil || ev.frame.loops[ev.loopH] == nil || ev.frame.loops[ev.loopH].headState == nil {
+			specFail("atHeader() outside a loop assert / invariant step")
+		}
+		n := *ev
+		n.cur = ev.frame.loops[ev.loopH].headState
+		ev.frame.useHead = true
+		defer func() { ev.frame.useHead = false }()
+		return n.eval(x.Args[0])
 	case "forall", "exists":
 		// forall(x, sort, [y, sort,] body)
 		n := ev
 		var binders []string
 		i := 0
 		for ; i+2 < len(x.Args)+0 && i+2 <= len(x.Args)-1; i += 2 {
+			if _, isCall := x.Args[i].(*ast.CallExpr); isCall {
+				break
+			}
 			vn := argName(i)
 			sn, ok := sortNames[argName(i+1)]
 			if !ok {
@@ -615,12 +628,31 @@ func (ev *Env) call(x *ast.CallExpr) Val {
 		}
 		body := x.Args[len(x.Args)-1]
 		pat := ""
+		var trigExpr *ast.CallExpr
+		if i < len(x.Args)-1 {
+			if ce, ok := x.Args[i].(*ast.CallExpr); ok {
+				if id, ok := ce.Fun.(*ast.Ident); ok && id.Name == "trigger" {
+					trigExpr = ce
+				}
+			}
+		}
 		// optional trigger: forall(x, int, trigger(t1, t2), body) is not supported; rely on solver
 		ev.fx.binders++
 		bt := func() string {
 			defer func() { ev.fx.binders-- }()
+			if trigExpr != nil {
+				var ts []string
+				for _, a := range trigExpr.Args {
+					v := n.eval(a)
+					ts = append(ts, v.L...)
+				}
+				pat = " :pattern (" + strings.Join(ts, " ") + ")"
+			}
 			return n.evalBool(body)
 		}()
+		if pat != "" {
+			return boolV("(" + name + " (" + strings.Join(binders, " ") + ") (! " + bt + pat + "))")
+		}
 		return boolV("(" + name + " (" + strings.Join(binders, " ") + ") " + bt + pat + ")")
 	case "let":
 		v := arg(1)
